@@ -191,7 +191,10 @@ impl PrometheusBuilder {
     {
         use std::str::FromStr;
 
+        // A subnet is given in CIDR notation; a plain IP address stands for the subnet containing
+        // just that address.
         let address = IpNet::from_str(address.as_ref())
+            .or_else(|e| IpAddr::from_str(address.as_ref()).map(IpNet::from).map_err(|_| e))
             .map_err(|e| BuildError::InvalidAllowlistAddress(e.to_string()))?;
         self.allowed_addresses.get_or_insert(vec![]).push(address);
 
